@@ -72,6 +72,9 @@ func init() {
 		rtp + "BytesEq": func(ex *Exec, fr *frame, a []Value) Value {
 			return ex.fromTerm(ex.cellsEq(a[0].([]Value), a[1].([]Value)))
 		},
+		rtp + "SameState": func(ex *Exec, fr *frame, a []Value) Value {
+			return ex.fromTerm(ex.deepEq(a[0], a[1]))
+		},
 		rtp + "StrEq": func(ex *Exec, fr *frame, a []Value) Value {
 			return ex.fromTerm(ex.strEq(a[0], a[1]))
 		},
